@@ -23,7 +23,8 @@ def run(ctx):
                 ('legacy deferred await', pc.mc_cfg('pit-A-defer-legacy', 'legacy', 2, ctx.pick(2, 3), 'timing', 'legacy', defer='Def_both')),
                 ('v2 cancellation in flight', pc.mc_cfg('pit-A-race-v2', 'v2', 2, 2, 'small', 'v2two', races='Race_one')),
                 ('v2 reconnect', pc.mc_cfg('pit-A-reconn-v2', 'v2', ctx.pick(2, 3), 2, 'small', 'v2two', reconn=True)),
-                ('legacy reconnect', pc.mc_cfg('pit-A-reconn-legacy', 'legacy', ctx.pick(2, 3), 2, 'small', 'legacy', reconn=True))]
+                ('legacy reconnect', pc.mc_cfg('pit-A-reconn-legacy', 'legacy', ctx.pick(2, 3), 2, 'small', 'legacy', reconn=True)),
+                ('legacy lifetime 0', pc.mc_cfg('pit-A-life0-legacy', 'legacy', 2, 2, 'small0', 'legacy'))]
         if not ctx.quick:
             cfgs += [('legacy timing 3 entries', pc.mc_cfg('pit-A-timing-legacy', 'legacy', 3, 3, 'timing', 'legacy')),
                      ('v2 digest', pc.mc_cfg('pit-A-dig-v2', 'v2', 3, 2, 'dig', 'v2two')),
@@ -47,6 +48,9 @@ def run(ctx):
         for front, V in (('v2', 'v2two'), ('legacy', 'legacy')):
             cfgp = pc.mc_cfg('pit-B-reconn-' + front, front, 2, 1, 'small', V, reconn=True, invs=[], props=[])
             pc.stage_b(ctx, front, cfgp, 'reconnect 2 entries', devs=DEVS[front], report_devs=False, max_paths=ctx.pick(400, 8000))
+        # InterestLifetime 0 (legacy): the Interest times out in the instant it is expressed and leaves nothing behind
+        cfgp = pc.mc_cfg('pit-B-life0-legacy', 'legacy', 2, 1, 'small0', 'legacy', invs=[], props=[])
+        pc.stage_b(ctx, 'legacy', cfgp, 'lifetime 0, 2 entries', devs=DEVS['legacy'], report_devs=False, max_paths=ctx.pick(300, 6000))
         # behaviours sampled from a 3-entry configuration with every dimension open (too large for a cover)
         for front, V, vmap in (('v2', 'v2two', None), ('legacy', 'legacy', None)):
             cfgp = pc.mc_cfg('pit-S-' + front, front, 3, 3, 'match', V, R='R_two', E='E_all', defer='Def_both', races='Race_one', invs=[], props=[])
